@@ -75,9 +75,9 @@ PROPERTIES = {
               'BOUNDED (labelled): every file the real recorder writes for all 64 configurations, fed through the real HTTP recorder session with '
               'non-canonical header formattings, is read back by an independent strict reader (lengths, CRLF CRLF, unique ids, warcinfo id, both digests).',
         note='SHA-1 / base32 / uuid4 are uninterpreted; file read() returns exactly min(n, remaining) bytes; NameValueRecord serialisation and the HTTP '
-             'recorder session\'s use of the payload offset in end_response are not under contract (bounded stand-in only); WARCRecord() / set_common_fields are assumed at the begin_response call sites. One genuine defect (payload offset from a re-serialised '
+             'recorder session\'s revisit path are not under contract (bounded stand-in only); end_response/ensures:payload-digest-starts-at-the-recorded-offset ties the archived WARC-Payload-Digest to block[recorded offset:] through set_length_and_maybe_checksums, compute_checksum and the field frame of write_record (only the warcinfo id is stamped); WARCRecord() / set_common_fields are assumed at the begin_response call sites. One genuine defect (payload offset from a re-serialised '
              'header) was found by the stand-in and repaired (fix: commit).',
-        not_decided=['payload offset: begin_response is under contract (offset = length of what response_data appended before it = the received header block); that end_response hands this same value to compute_checksum is still bounded only (c05_reader)',
+        not_decided=['payload offset with a revisit table configured (_record_revisit truncates the block and recomputes the digests): end_response payload-digest clause is stated for the no-table case only; bounded stand-in otherwise',
                      'one gzip member per record: assumed property of gzip.GzipFile'],
     ),
     'C06': dict(
